@@ -45,6 +45,8 @@ def verdict(pid, repo_root, overrides, use_reference=True):
         err = None
         try:
             mod.run(chk)
+            from .. import shared
+            shared.run_shared(pid, chk, repo, mod)
         except AnalysisError as e:
             err = str(e)[:200]
         known = load_known(pid)
